@@ -35,3 +35,12 @@ Theorem C11_accept_multiset :
   Permutation rs rs' -> accepts rs inc = accepts rs' inc.
 Proof. exact accepts_perm. Qed.
 Print Assumptions C11_accept_multiset.
+(* Acceptance loses and invents no message: the supplied readers are exactly the selected
+   roCreate plus the remaining readers, and none of the remaining readers is a roCreate. *)
+Theorem C11_partition :
+  forall (rs : list reader) (inc : bool) (rc : reader) (others : list reader),
+  validate rs inc = inr (rc, others) ->
+  Permutation rs (rc :: others) /\ is_class RunningOrder rc = true /\
+  (forall r, In r others -> is_class RunningOrder r = false).
+Proof. exact validate_partition. Qed.
+Print Assumptions C11_partition.
